@@ -37,12 +37,24 @@ def lib_weight(R, w, idx):
     return SR.mk(R, w)
 
 
+def fresh(x):
+    """An object equal to x but (where Python allows) not identical to it: symbols that reach the library from
+    parsing, renaming or arithmetic are equal, not identical - code must compare them with ==, never with `is`."""
+    if isinstance(x, str) and len(x) > 1:
+        return "".join(list(x))
+    if isinstance(x, tuple) and not hasattr(x, "_fields") and x:
+        return tuple(fresh(y) for y in x)
+    if isinstance(x, int) and not isinstance(x, bool) and abs(x) > 256:
+        return int(str(x))
+    return x
+
+
 def build_cfg(g, R, cls=CFG):
-    "library grammar for case g over the semiring named R"
+    "library grammar for case g over the semiring named R (every symbol occurrence is a distinct, equal object)"
     Rcls = SR.BY_NAME[R]
-    cfg = cls(R=Rcls, S=g["S"], V=set(g["V"]))
+    cfg = cls(R=Rcls, S=fresh(g["S"]), V=set(g["V"]))
     for idx, (w, h, b) in enumerate(g["rules"]):
-        cfg.add(lib_weight(R, w, idx), h, *b)
+        cfg.add(lib_weight(R, w, idx), fresh(h), *[fresh(y) for y in b])
     return cfg
 
 
@@ -301,3 +313,20 @@ def fst_ref_from_lib(F, R):
         {"n": len(states), "start": [[ix[q], conv(w)] for q, w in F.start.items()], "stop": [[ix[q], conv(w)] for q, w in F.stop.items()], "arcs": arcs},
         zero, one, idem,
     )
+
+
+def token_variants(x, rng):
+    """The same token sequence as another sequence type / with numpy scalars that are equal and hash-equal to
+    the terminals (tokens often come out of numeric code): ('tuple', x) always first."""
+    import numpy as np
+
+    x = tuple(x)
+    out = [("tuple", x)]
+    if x and all(isinstance(t, int) and not isinstance(t, bool) for t in x):
+        out.append(("tuple-of-np.int64", tuple(np.int64(t) for t in x)))
+    if x and all(isinstance(t, str) for t in x):
+        out.append(("tuple-of-np.str_", tuple(np.str_(t) for t in x)))
+        if all(len(t) == 1 for t in x):
+            out.append(("str", "".join(x)))
+    out.append(("list", list(x)))
+    return out
